@@ -67,7 +67,7 @@ def run(R):
         if a != p["generated_encoders"]:
             R.oracle_failure("REGISTRY:" + p["dir"], "models parsed from the definitions %s differ from the encoders in zz_generated.go %s" % (a, p["generated_encoders"]),
                              dict(package=p["dir"], definitions=a, generated=p["generated_encoders"]))
-    R.prove("Codec")
+    cc.prove(R)
     if not R.quick:
         R.coqchk("Codec", ["Codec.SchemasWf", "Codec.Theorems13", "Codec.LengthExact"])
     b = cc.build(R, pkgs)
